@@ -35,6 +35,8 @@ func init() {
 			{ID: "C10-R11", Title: "the thread's call returns the spawned callable's result untouched", Floor: 1, Run: spawnedResultPassesThrough},
 			{ID: "C10-R12", Title: "compiled statements, send and receive included, meet their stack contract: a long-running sender does not exhaust the stack (shared with C04-R2)", Floor: 35, Run: c04r2},
 			{ID: "C10-R13", Title: "the state of an iteration is per consumer (Iter returns a new iterator)", Floor: 5, Run: iterationStateIsPerConsumer},
+			{ID: "C10-R14", Title: "frame storage is per activation (a goroutine closure keeps its values; shared with C02)", Floor: 3, Run: frameStorageIsPerActivation},
+			{ID: "C10-R15", Title: "the Go channel is operated only by object.Chan", Floor: 1, Run: channelOpsStayInTheChannelObject},
 		},
 	})
 }
